@@ -175,7 +175,9 @@ CLAIMED = {
             "step by TLC against the automaton's / grammar's own step relation (JWIT.tla, CFG.tla), None iff rejected; "
             "8 (32) hash seeds; calls burning more than 4 s of CPU count as non-termination; (T) the pops and examined "
             "edges of nfa_find_epsilon_path reported by hooks are replayed through the same step functions the "
-            "model is tied to (PathFixedAgrees).  Derive.tla models cfg_derive_word's two worklist loops (all CNF rule "
+            "model is tied to (PathFixedAgrees); (G) every schedule of the search TLC enumerates on 3 states (Schedules.tla, "
+            "Algo = path: 20 k pop / edge orders) is FORCED onto nfa_find_epsilon_path, nfa_simulate_word and "
+            "pda_simulate_word and the returned path compared with the model's.  Derive.tla models cfg_derive_word's two worklist loops (all CNF rule "
             "lists <= 3 (4) in every order, both modes: valid derivation, termination) and the same step functions "
             "(DeriveSteps.tla) recompute every recorded derivation, which must be identical.",
             "trusted: TLC, abstraction.py, FA/PDA/CFG.tla; wall-clock limit for termination",
